@@ -3,34 +3,32 @@ From Verif Require Import Base.Prelude Model.Rebalance.
 (* phase, flag, timer and lock always fit together *)
 Definition rinv (s : rstate) : Prop :=
   match r_phase s with
-  | POpen => r_balancing s = false /\ r_blocked s = 0%nat /\ r_timer s <> TArmed
-  | PClosing => r_balancing s = true /\ r_timer s <> TArmed
+  | POpen => r_balancing s = false /\ r_timer s = TNil
+  | PClosing => r_balancing s = true /\ r_timer s = TNil
   | PDelay => r_balancing s = true /\ r_timer s = TArmed
   | PReopening => r_balancing s = true /\ r_timer s = TFired
-  end /\ r_stopped s = false.
+  end /\ r_blocked s = 0%nat /\ r_stopped s = false.
 
 Lemma rinv_init i : rinv (r_init i).
-Proof. unfold rinv, r_init; cbn. repeat split; discriminate. Qed.
+Proof. unfold rinv, r_init; cbn. repeat split. Qed.
+
+Ltac crush_rinv :=
+  unfold rinv, r_step, enter in *; cbn in *;
+  intuition (subst; try discriminate; try congruence).
 
 Lemma rinv_enter s : rinv s -> rinv (fst (enter s)).
 Proof.
-  intros [I St]. destruct s as [ph ba ti bl de inf ra nx cy st]; cbn in *. subst st. unfold enter; cbn.
-  destruct ph, ba, ti; cbn in *; unfold rinv; cbn; intuition (try discriminate; try congruence).
+  intros I. destruct s as [ph ba ti bl de inf ra nx cy st]. destruct ph, ba, ti; crush_rinv.
 Qed.
 
 Lemma rinv_step s o : rinv s -> rinv (fst (r_step s o)).
 Proof.
-  intros I. destruct o as [i| | | |]; cbn.
-  - apply rinv_enter. destruct s; exact I.
-  - destruct I as [I St]. destruct s as [ph ba ti bl de inf ra nx cy st]; cbn in *. subst st.
-    destruct ph; cbn; unfold rinv; cbn; intuition (try discriminate; try congruence).
-  - destruct I as [I St]. destruct s as [ph ba ti bl de inf ra nx cy st]; cbn in *. subst st.
-    destruct ph, ti; cbn; unfold rinv; cbn; intuition (try discriminate; try congruence).
-  - destruct I as [I St]. destruct s as [ph ba ti bl de inf ra nx cy st]; cbn in *. subst st.
-    destruct ph; cbn; try (unfold rinv; cbn; intuition (try discriminate; try congruence); fail).
-    destruct bl as [|b]; cbn; [unfold rinv; cbn; intuition (try discriminate; try congruence)|].
-    unfold enter; cbn. unfold rinv; cbn. intuition (try discriminate; try congruence).
-  - destruct (r_deferred s) as [|d] eqn:E; [exact I|]. apply rinv_enter. destruct s; exact I.
+  intros I. destruct s as [ph ba ti bl de inf ra nx cy st]. destruct o as [i| | | |].
+  - destruct ph, ba, ti; crush_rinv.
+  - destruct ph; crush_rinv.
+  - destruct ph, ti; crush_rinv.
+  - destruct ph, bl as [|b]; crush_rinv.
+  - destruct de as [|d]; [exact I|]. destruct ph, ba, ti; crush_rinv.
 Qed.
 
 Lemma rinv_run ops : forall s, rinv s -> rinv (fst (r_run s ops)).
@@ -73,7 +71,7 @@ Qed.
 
 Lemma step_accept s o : rinv s -> accept (pos_of (r_phase s)) (snd (r_step s o)) = Some (pos_of (r_phase (fst (r_step s o)))).
 Proof.
-  intros [I _]. destruct s as [ph ba ti bl de inf ra nx cy st]. destruct o as [i| | | |]; unfold r_step, enter; cbn in *;
+  intros I. destruct s as [ph ba ti bl de inf ra nx cy st]. destruct o as [i| | | |]; unfold rinv, r_step, enter in *; cbn in *;
     destruct ph, ba, ti, bl as [|b], de as [|d]; cbn in *; try reflexivity; intuition (try discriminate; try congruence).
 Qed.
 
@@ -92,13 +90,13 @@ Definition settled (s : rstate) : Prop :=
      covered by a pending deferred / blocked Rebalance() *)
   match r_phase s with
   | POpen => (r_range s = r_info s) \/ (0 < r_deferred s)%nat
-  | PReopening => (r_next s = r_info s) \/ (0 < r_deferred s + r_blocked s)%nat
+  | PReopening => (r_next s = r_info s) \/ (0 < r_deferred s)%nat
   | _ => True
   end.
 
 Lemma settled_step s o : rinv s -> settled s -> settled (fst (r_step s o)).
 Proof.
-  intros [I _] S. destruct s as [ph ba ti bl de inf ra nx cy st]. destruct o as [i| | | |]; unfold r_step, enter, settled in *; cbn in *;
+  intros I S. destruct s as [ph ba ti bl de inf ra nx cy st]. destruct o as [i| | | |]; unfold rinv, r_step, enter, settled in *; cbn in *;
     destruct ph, ba, ti, bl as [|b], de as [|d]; cbn in *; intuition (try discriminate; try congruence; try lia).
 Qed.
 
@@ -121,19 +119,20 @@ Qed.
 Lemma progress s : rinv s -> quiet s = false ->
   exists o, (o = CloseDone \/ o = TimerFire \/ o = ReopenDone \/ o = DeferredFire) /\ fst (r_step s o) <> s.
 Proof.
-  intros [I _] Q. destruct s as [ph ba ti bl de inf ra nx cy st]. unfold quiet in Q; cbn in *.
+  intros I Q. destruct s as [ph ba ti bl de inf ra nx cy st]. unfold quiet, rinv in *; cbn in *.
   destruct ph.
-  - destruct I as (-> & -> & _). cbn in Q. destruct de as [|d]; [discriminate|].
-    exists DeferredFire. split; [auto|]. unfold r_step, enter; cbn. destruct ti; cbn; discriminate.
+  - destruct I as ((-> & ->) & -> & _). cbn in Q. destruct de as [|d]; [discriminate|].
+    exists DeferredFire. split; [auto|]. unfold r_step, enter; cbn. discriminate.
   - exists CloseDone. split; [auto|]. cbn. discriminate.
-  - destruct I as (-> & ->). exists TimerFire. split; [auto|]. cbn. discriminate.
-  - destruct I as (-> & ->). exists ReopenDone. split; [auto|]. cbn. destruct bl; cbn; discriminate.
+  - destruct I as ((-> & ->) & _). exists TimerFire. split; [auto|]. cbn. discriminate.
+  - destruct I as ((-> & ->) & -> & _). exists ReopenDone. split; [auto|]. cbn. discriminate.
 Qed.
 
-(* ---- one burst, one cycle: the first notification arrives while streaming, the others while the stream is
-   closed and the timer armed (the debounce window); then the timer fires and the reopen completes ---- *)
-Definition burst_ops (first : N) (rest : list N) : list rop :=
-  Notify first :: CloseDone :: map Notify rest ++ [TimerFire; ReopenDone].
+(* ---- one burst, one cycle: the first notification arrives while streaming, the others at any point before the
+   reopen starts -- while the close step is running (they find nothing to do) or while the stream is closed and the timer
+   armed (each one pushes the timer back); then the timer fires and the reopen completes ---- *)
+Definition burst_ops (first : N) (during_close during_delay : list N) : list rop :=
+  Notify first :: map Notify during_close ++ CloseDone :: map Notify during_delay ++ [TimerFire; ReopenDone].
 
 Lemma last_cons_default {A} (l : list A) : forall x d, last (x :: l) d = last l x.
 Proof. induction l as [|y l IH]; intros x d; [reflexivity|]. cbn [last] in *. destruct l; [reflexivity|]. rewrite (IH y d), (IH y x). reflexivity. Qed.
@@ -141,6 +140,15 @@ Proof. induction l as [|y l IH]; intros x d; [reflexivity|]. cbn [last] in *. de
 Lemma debounce_absorbs rest : forall bl de inf ra nx cy st,
   r_run (R PDelay true TArmed bl de inf ra nx cy st) (map Notify rest) =
   (R PDelay true TArmed bl de (last rest inf) ra nx cy st, []).
+Proof.
+  induction rest as [|i r IH]; intros bl de inf ra nx cy st; [reflexivity|].
+  cbn [map r_run]. unfold r_step, enter. cbn [r_balancing r_timer r_phase r_blocked r_deferred r_info r_range r_next r_cycles r_stopped].
+  rewrite IH. rewrite last_cons_default. reflexivity.
+Qed.
+
+Lemma closing_absorbs rest : forall bl de inf ra nx cy st,
+  r_run (R PClosing true TNil bl de inf ra nx cy st) (map Notify rest) =
+  (R PClosing true TNil bl de (last rest inf) ra nx cy st, []).
 Proof.
   induction rest as [|i r IH]; intros bl de inf ra nx cy st; [reflexivity|].
   cbn [map r_run]. unfold r_step, enter. cbn [r_balancing r_timer r_phase r_blocked r_deferred r_info r_range r_next r_cycles r_stopped].
@@ -158,16 +166,25 @@ Qed.
 Lemma r_run_cons s o r : r_run s (o :: r) = let '(s1, o1) := r_step s o in let '(s2, o2) := r_run s1 r in (s2, o1 ++ o2).
 Proof. reflexivity. Qed.
 
-Lemma burst_one_cycle first rest s :
-  r_phase s = POpen -> r_balancing s = false -> r_blocked s = 0%nat ->
-  let '(s', outs) := r_run s (burst_ops first rest) in
+Lemma last_app_default {A} (l1 l2 : list A) d : last (l1 ++ l2) d = last l2 (last l1 d).
+Proof.
+  revert d. induction l1 as [|x l IH]; intros d; [reflexivity|].
+  change ((x :: l) ++ l2) with (x :: (l ++ l2)). rewrite !last_cons_default. apply IH.
+Qed.
+
+Lemma burst_one_cycle first r1 r2 s :
+  rinv s -> r_phase s = POpen ->
+  let '(s', outs) := r_run s (burst_ops first r1 r2) in
   outs = [BRS; BSStop; ASStop; ARS; BRE; BSStart; ASStart; ARE] /\
-  r_phase s' = POpen /\ r_cycles s' = S (r_cycles s) /\ r_range s' = last rest first /\ r_info s' = last rest first /\
+  r_phase s' = POpen /\ r_cycles s' = S (r_cycles s) /\ r_range s' = last (r1 ++ r2) first /\ r_info s' = last (r1 ++ r2) first /\
   r_blocked s' = 0%nat /\ r_deferred s' = r_deferred s.
 Proof.
-  intros P B Bl. destruct s as [ph ba ti bl de inf ra nx cy st]; cbn in P, B, Bl; subst.
+  intros I P. destruct s as [ph ba ti bl de inf ra nx cy st]; cbn in P; subst.
+  unfold rinv in I; cbn in I. destruct I as ((-> & ->) & -> & ->).
   unfold burst_ops.
-  assert (E1 : r_step (R POpen false ti 0 de inf ra nx cy st) (Notify first) = (R PClosing true ti 0 de first ra nx cy st, [BRS; BSStop])).
-  { unfold r_step, enter; cbn. destruct ti; reflexivity. }
-  rewrite r_run_cons, E1, r_run_cons. cbn [r_step r_phase]. rewrite r_run_app, debounce_absorbs. cbn. repeat split; reflexivity.
+  rewrite r_run_cons. unfold r_step at 1, enter.
+  cbn [r_balancing r_timer r_phase r_blocked r_deferred r_info r_range r_next r_cycles r_stopped].
+  rewrite r_run_app, closing_absorbs.
+  rewrite r_run_cons. cbn [r_step r_phase r_balancing r_timer r_blocked r_deferred r_info r_range r_next r_cycles r_stopped].
+  rewrite r_run_app, debounce_absorbs. cbn. rewrite last_app_default. repeat split; reflexivity.
 Qed.
